@@ -30,12 +30,16 @@ def tasks(tier, seed):
     chunks = [inst[i::nchunks] for i in range(nchunks)]
     ts = [{"name": f"validators-{i}", "fn": "validators", "mode": MODE, "instances": c} for i, c in enumerate(chunks) if c]
     ts += crc_lemma.tasks(tier)
+    ts.append({"name": "crosshair", "fn": "crosshair"})
     return ts
 
 
 def run_task(task):
     if task["fn"] == "crc":
         return crc_lemma.run_task(task)
+    if task["fn"] == "crosshair":
+        from . import crosshair_xc
+        return {"lemmas": [crosshair_xc.run()]}
     out = []
     for framing, kind, n, m in task["instances"]:
         h = V.ValidatorHarness(task["mode"], framing, kind, n, m)
